@@ -169,8 +169,8 @@ func damage(seg []byte, variant int64, r *rand.Rand) ([]byte, string) {
 		pos := body
 		for pos+61 <= len(out)-16 {
 			n := int(binary.BigEndian.Uint32(out[pos+8 : pos+12]))
-			if n <= 0 || pos+12+n > len(out)-16 {
-				break
+			if n < 49 || pos+12+n > len(out)-16 {
+				break // (the length field itself may be among the overwritten bytes)
 			}
 			binary.BigEndian.PutUint32(out[pos+17:pos+21], crc32.Checksum(out[pos+21:pos+12+n], castagnoliTab))
 			pos += 12 + n
